@@ -432,7 +432,31 @@ def maxpool_extent(ctx):
               "windows visited = floor((in - kernel)/stride) + 1 per axis = announced output extent")
 
 
+def dense_linear_algebra(ctx):
+    """activation(W x + b): `W x` is Tensor::dot - the matrix-vector product over every column, whatever the values (C15's R15.3 re-run under this property)"""
+    from . import c15
+    sub = type(ctx)(ctx.prop, ctx.facts)
+    sub.guard("R15.3", "linear-algebra", c15.linear_algebra, sub)
+    bad = [o for o in sub.obligations if o["status"] != "ok"]
+    for o in bad:
+        ctx.bad("R02.4", "linalg:" + o["instance"], o["key"].split("/", 3)[-1], o["where"], o["detail"])
+    ctx.check("R02.4", "linear-algebra", not bad and len(sub.obligations) >= 7, "linear-algebra-broken", "src/tensor.rs", "%d facts about Tensor::dot / product / transpose" % len(sub.obligations))
+
+
+def batch_prediction(ctx):
+    """a network's prediction - also through predict_batch - is predict of every input, in input order (C12's R12.1 re-run under this property)"""
+    from . import c12
+    sub = type(ctx)(ctx.prop, ctx.facts)
+    sub.guard("R12.1", "predict", c12.r1, sub)
+    bad = [o for o in sub.obligations if o["status"] != "ok"]
+    for o in bad:
+        ctx.bad("R02.5", "batch:" + o["instance"], o["key"].split("/", 3)[-1], o["where"], o["detail"])
+    ctx.check("R02.5", "batch-prediction", not bad and len(sub.obligations) >= 3, "batch-prediction-broken", "src/network.rs", "%d facts about predict / predict_batch" % len(sub.obligations))
+
+
 def run(ctx):
+    ctx.guard("R02.4", "linear-algebra", dense_linear_algebra, ctx)
+    ctx.guard("R02.5", "batch-prediction", batch_prediction, ctx)
     ctx.guard("R02.1", "maxpool-extent", maxpool_extent, ctx)
     ctx.guard("R02.1", "operators", r1, ctx)
     from .c08 import padding_applied
